@@ -390,7 +390,7 @@ func genGraph(r *rng, kind string) *graph {
 }
 
 // set once the Lean model covers modules whose environment cannot be set up (graphs with a third component)
-const modelHasBroken = false
+const modelHasBroken = true
 
 var kinds = []string{"chain", "diamond", "shared", "cycle", "self", "crossroot", "dag", "random", "shared", "cycle", "foreign"}
 
@@ -449,7 +449,7 @@ type lrun struct {
 	log         []string
 	held        map[int]int // module -> thread that holds its mutex across a scheduling point
 	hookExecs   map[int]int
-	done        map[int]bool // module -> failed
+	done        map[int]string // module -> "ok" | "cyc" (cyclic-dependency error, own or inherited) | "err" (any other error)
 	slowRng     *rng
 	slowMax     int
 }
@@ -578,10 +578,14 @@ func hook(name string, arg any) {
 		info, _ := dawn.VerifModule(arg)
 		r.mu.Lock()
 		m := r.ids[info.Label]
-		r.done[m] = info.Failed
 		res := "ok"
+		r.done[m] = "ok"
 		if info.Failed {
 			res = "fail"
+			r.done[m] = "err"
+			if strings.Contains(info.Err, "cyclic dependency") {
+				r.done[m] = "cyc"
+			}
 		}
 		r.emit(t, "done.%d.%s", m, res)
 		if r.controlled {
@@ -631,7 +635,7 @@ const loaderWatchdog = 30 * time.Second
 
 func newLrun(g *graph, controlled bool) *lrun {
 	r := &lrun{controlled: controlled, g: g, ids: map[string]int{}, pkgThread: map[string]int{}, byGid: map[int64]*lthr{},
-		msgs: make(chan *lthr, 64), held: map[int]int{}, hookExecs: map[int]int{}, done: map[int]bool{}}
+		msgs: make(chan *lthr, 64), held: map[int]int{}, hookExecs: map[int]int{}, done: map[int]string{}}
 	for m := range g.loads {
 		r.ids[g.label(m)] = m
 	}
@@ -676,7 +680,7 @@ func (res *lresult) collect(r *lrun, ev *events, lo *loadOut) {
 	for k, v := range r.hookExecs {
 		execs[k] = v
 	}
-	done := map[int]bool{}
+	done := map[int]string{}
 	for k, v := range r.done {
 		done[k] = v
 	}
@@ -708,15 +712,29 @@ func (res *lresult) collect(r *lrun, ev *events, lo *loadOut) {
 		res.errText = lo.err.Error()
 	}
 	var ex, ok, fl []string
+	anyCyc, anyErr := false, false
 	for m := range r.g.loads {
 		ex = append(ex, fmt.Sprintf("%d:%d", m, execs[m]))
-		if f, d := done[m]; d {
-			if f {
-				fl = append(fl, strconv.Itoa(m))
-			} else {
-				ok = append(ok, strconv.Itoa(m))
-			}
+		switch done[m] {
+		case "ok":
+			ok = append(ok, strconv.Itoa(m))
+		case "cyc":
+			anyCyc = true
+			fl = append(fl, strconv.Itoa(m))
+		case "err":
+			anyErr = true
+			fl = append(fl, strconv.Itoa(m))
 		}
+	}
+	// which errors the finished modules carry (what Load returns is one of them, in map order; judged separately)
+	modClass := "ok"
+	switch {
+	case anyCyc && anyErr:
+		modClass = "mixed"
+	case anyCyc:
+		modClass = "cyclic"
+	case anyErr:
+		modClass = "other"
 	}
 	cj := func(xs []string) string {
 		if len(xs) == 0 {
@@ -724,7 +742,18 @@ func (res *lresult) collect(r *lrun, ev *events, lo *loadOut) {
 		}
 		return strings.Join(xs, ",")
 	}
-	res.final = fmt.Sprintf("class=%s execs=%s ok=%s failed=%s", res.class, cj(ex), cj(ok), cj(fl))
+	res.final = fmt.Sprintf("class=%s execs=%s ok=%s failed=%s", modClass, cj(ex), cj(ok), cj(fl))
+	// Load's own verdict must be one of the modules' errors (or success when there is none)
+	switch modClass {
+	case "ok", "cyclic", "other":
+		if res.class != modClass {
+			res.final += " load=" + res.class
+		}
+	case "mixed":
+		if res.class != "cyclic" && res.class != "other" {
+			res.final += " load=" + res.class
+		}
+	}
 }
 
 // runControlled loads the tree at root with the loader goroutines serialised by choose.
@@ -1324,7 +1353,7 @@ func main() {
 	// 2. small graphs: many random and PCT schedules each
 	per := 60
 	if thorough {
-		per = 600
+		per = 400
 	}
 	for _, s := range small {
 		jobs = append(jobs, job{Graph: s, Mode: "random", N: per, Seed: r.next(), Ver: *ver, Trace: 3})
@@ -1353,7 +1382,7 @@ func main() {
 	bs := 40
 	wd := 90 * time.Second
 	if thorough {
-		bs = 120
+		bs = 30
 		wd = 6 * time.Minute
 	}
 	var batches [][]job
